@@ -479,6 +479,23 @@ func c12System(c *Ctx) {
 		cfg.Flags = append(cfg.Flags, fmt.Sprintf("--maxjobs=%d", maxJobs), fmt.Sprintf("--jobinterval=%d", []int{0, 100, 2000}[c.Plan.Draw(3)]))
 		c.Res.Probes["cluster-mode-runs"]++
 	}
+	if c.Plan.Draw(4) == 0 {
+		// --overrides replaces the requests of single stages or whole sub-pipelines,
+		// per phase: fractional, zero, negative and oversized values among them
+		stages, pipes := stageNodes(prog)
+		all := append(append([]string{}, stages...), pipes...)
+		ov := map[string]map[string]interface{}{}
+		for i := 0; i < 1+c.Plan.Draw(4); i++ {
+			n := all[c.Plan.Draw(len(all))]
+			if ov[n] == nil {
+				ov[n] = map[string]interface{}{}
+			}
+			key := []string{"chunk.threads", "chunk.mem_gb", "split.threads", "split.mem_gb", "join.threads", "join.mem_gb", "chunk.vmem_gb"}[c.Plan.Draw(7)]
+			ov[n][key] = []float64{1, 2, 0.5, 1.5, 2.5, 4.01, 16, 64, 0, -1, -2, 3}[c.Plan.Draw(12)]
+		}
+		cfg.Overrides = ov
+		c.Res.Probes["runs-with-resource-overrides"]++
+	}
 	swarmSched(c.Plan, cfg)
 	cfg.WJob = 1 // jobs are slow relative to mrp: reservations overlap
 	if cfg.WTime == 0 {
